@@ -191,9 +191,12 @@ class ASTString(ASTTemplate):
         return f"{node.op} {self.visit(node.operand)}"
 
     def visit_DefIdentifier(self, node: AST.DefIdentifier) -> str:
-        if node.was_quoted:
-            return f"'{node.value}'"
-        return _format_reserved_word(node.value)
+        text = f"'{node.value}'" if node.was_quoted else _format_reserved_word(node.value)
+        # Code items of a hierarchical rule may carry a condition: BE [Time >= ...]
+        condition = getattr(node, "_right_condition", None)
+        if condition is not None:
+            text += f" [{self.visit(condition)}]"
+        return text
 
     def visit_DPRule(self, node: AST.DPRule) -> str:
         if self.pretty:
